@@ -426,6 +426,10 @@ structure OutLine where
   inVar : Bool                -- `line_in_var_block[i]`
   colon : Option Nat := none  -- `line_colon_index[i]` (byte index)
   skipAlign : Bool            -- `LineFormatMasks::skip_alignment`
+  /-- what `find_assignment_op` gets from lexing the line: the number of non-white-space characters in front
+  of the first `Assign` / `Arrow` token (`none`: the line has no such token).  White space inserted by the
+  alignment passes moves the token's byte index, not this count. -/
+  opSkip : Option Nat := none
   deriving DecidableEq, Repr, Inhabited
 
 def isDedentToken (t : Tok) : Bool := dedentKinds.contains t.name
@@ -472,6 +476,14 @@ def firstColonIsToken : List Tok → Bool
     else if t.text.contains ':' then false
     else firstColonIsToken rest
 
+/-- Non-white-space characters in front of the first `Assign` / `Arrow` token of a line. -/
+def opSkipOf : List Tok → Option Nat := go 0
+where
+  go (acc : Nat) : List Tok → Option Nat
+    | [] => none
+    | t :: rest =>
+      if t.name == "Assign" || t.name == "Arrow" then some acc else go (acc + (nonWs t.text).length) rest
+
 /-- The formatted line of a non-blank line outside block comments, with its masks. -/
 def emitLine (cfg : Config) (l : LineIn) (lineInVar : Bool) (cur : Nat) : OutLine :=
   let prefix_ := repeatText (indentUnit cfg) cur
@@ -480,7 +492,7 @@ def emitLine (cfg : Config) (l : LineIn) (lineInVar : Bool) (cur : Nat) : OutLin
     if verbatim then prefix_ ++ trim l.text
     else prefix_ ++ formatLineTokens l.toks cfg.kwCase cfg.style l.relexOk
   { text := line, inVar := lineInVar, colon := if lineInVar && !verbatim && firstColonIsToken l.toks then findTypeColon line else none,
-    skipAlign := skipAlignOf l }
+    skipAlign := skipAlignOf l, opSkip := if verbatim then none else opSkipOf l.toks }
 
 /-- `indent_level` after the line. -/
 def nextIndent (cur : Int) (dedentAfter : Bool) (toks : List Tok) : Int :=
@@ -547,13 +559,23 @@ where
 /-- `leading_whitespace`. -/
 def leadingWs (t : Text) : Text := t.takeWhile isWs
 
-/-- `find_assignment_op`: byte index of the first ":=" or "=>". -/
-def findAssignOp (line : Text) : Option Nat :=
-  match findText line [':', '='], findText line ['=', '>'] with
-  | some a, some b => some (min a b)
-  | some a, none => some a
-  | none, some b => some b
-  | none, none => none
+/-- Byte index of the first non-white-space character behind `n` non-white-space characters. -/
+def offsetAfter (t : Text) (n : Nat) : Nat := go t n 0
+where
+  go : Text → Nat → Nat → Nat
+    | [], _, off => off
+    | c :: cs, n, off =>
+      if isWs c then go cs n (off + c.utf8Size)
+      else match n with
+        | 0 => off
+        | m + 1 => go cs m (off + c.utf8Size)
+
+/-- `find_assignment_op` (since the fix PENDING-C15-align-assign): byte index of the first `Assign` / `Arrow`
+TOKEN of the line as `lex(line)` finds it - the line is the re-emitted token line (which lexes to its tokens:
+re-lex guard) plus white space at token boundaries, so that token starts behind `opSkip` non-white-space
+characters.  (Before the fix: the first TEXT occurrence of ":=" / "=>", which compact `a<=>b` has across the
+boundary of `<=` `>`.) -/
+def findAssignOp (o : OutLine) : Option Nat := o.opSkip.map (offsetAfter o.text)
 
 /-- `align_assignment_ops`. -/
 def alignAssignOps (ls : List OutLine) : List OutLine :=
@@ -565,16 +587,16 @@ where
     | o :: rest, fuel + 1 =>
       if o.skipAlign then o :: go rest fuel
       else
-        match findAssignOp o.text with
+        match findAssignOp o with
         | none => o :: go rest fuel
         | some op0 =>
           let indent := leadingWs o.text
           let cont := rest.takeWhile fun x =>
-            !x.skipAlign && leadingWs x.text == indent && (findAssignOp x.text).isSome
+            !x.skipAlign && leadingWs x.text == indent && (findAssignOp x).isSome
           let tail := rest.drop cont.length
-          let maxOp := cont.foldl (fun m x => max m ((findAssignOp x.text).getD 0)) op0
+          let maxOp := cont.foldl (fun m x => max m ((findAssignOp x).getD 0)) op0
           let fix := fun (x : OutLine) =>
-            match findAssignOp x.text with
+            match findAssignOp x with
             | some op => if op < maxOp then { x with text := padAt x.text op (maxOp - op) } else x
             | none => x
           (o :: cont).map fix ++ go tail fuel
@@ -765,23 +787,6 @@ def colonIsToken (cfg : Config) (l : LineIn) (o : OutLine) : Bool :=
     let lead := utf8Len o.text - utf8Len (formatLineTokens l.toks cfg.kwCase cfg.style l.relexOk)
     (tokenOffsetsFrom cfg.kwCase cfg.style none lead l.toks).any fun (off, t) => off == c && t.kind == .Colon
 
-/-- The byte index picked by `find_assignment_op` on `lineText` (a re-emitted token line, after the colon
-alignment) is where an `Assign` or `Arrow` token of that line starts: the text in front of the index, without
-its white space, is the concatenation of the tokens in front of that token.  False for compact `a<=>b`
-(tokens `<=` `>`): the text search finds "=>" across the token boundary. -/
-def assignOpIsToken (kc : KwCase) (toks : List Tok) (lineText : Text) : Bool :=
-  match findAssignOp lineText with
-  | none => true
-  | some c => go (nonWs (splitAtByte lineText c).1) toks
-where
-  go (pre : Text) : List Tok → Bool
-    | [] => false
-    | t :: rest =>
-      if pre.isEmpty then t.kind == .Assign || t.kind == .Arrow
-      else
-        let tx := nonWs (recase kc t)
-        if tx.isPrefixOf pre then go (pre.drop tx.length) rest else false
-
 /-- A line whose tokens are re-emitted by `format_line_tokens` (no mask, not blank). -/
 def LineIn.isTokenLine (l : LineIn) : Bool :=
   !(l.inBlockComment || l.hasLineComment || l.hasPragma || (trim l.text).isEmpty)
@@ -817,16 +822,7 @@ def docGuards (cfg : Config) (bd : Built) : List String :=
       if cfg.alignVar && ((d.lines.zip outs).any fun (l, o) => !colonIsToken cfg l o) then ["var-colon-in-token"]
       else []
     | none => []
-  -- `align_assignment_ops` pads a line at an index that is not the start of an `:=` / `=>` token
-  let asg := match core with
-    | some outs =>
-      let v := if cfg.alignVar then alignVarColons outs else outs
-      let a := alignedLines cfg outs
-      if cfg.alignAsg && ((d.lines.zip (v.zip a)).any fun (l, x, y) =>
-          x.text != y.text && !assignOpIsToken cfg.kwCase l.toks x.text) then ["assign-op-in-token"]
-      else []
-    | none => []
-  fallback ++ unrecorded.eraseDups ++ panic ++ wrapped ++ colon ++ asg ++
+  fallback ++ unrecorded.eraseDups ++ panic ++ wrapped ++ colon ++
     (if bd.multiLinePragma then ["multiline-pragma"] else []) ++
     (if bd.openError then ["open-ended-error-token"] else []) ++
     (if bd.hasError then ["error-token"] else [])
